@@ -1,7 +1,8 @@
 SPECIFICATION Spec
 CONSTANTS
   Thorough = FALSE
-  Den3 = 24
+  Den3 = 32
+  DenA = 16
 INVARIANTS
   TokInv
   AstInv
